@@ -244,10 +244,26 @@ def _compose_block(g, rng, subs, depth, maxlen, minlen=1, inloop=False):
             kinds += ["sdo", "sdo", "sdo", "sdofor", "sdountil"]
         if depth < 2:
             kinds += ["if", "while"]
+            if subs:
+                kinds += ["try"]
         if depth == 0:
             kinds += ["end"]
         k = rng.choice(kinds)
-        if k == "wait":
+        if k == "try":
+            # try/interrupt in a compose block; handlers are productive (start with a step or abort)
+            body = _compose_block(g, rng, subs, depth + 1, 2)
+            if not _has_yield_compose(body):
+                body.append(["wait"])
+            hs = []
+            for _h in range(rng.randint(1, 2)):
+                if rng.random() < 0.25:
+                    hb = [["abort"]]
+                else:
+                    # (a handler must take a step itself: a sub-scenario can end without one)
+                    hb = [["wait"]] + _compose_block(g, rng, subs, depth + 1, 2, minlen=0)
+                hs.append([g.cond(), hb])
+            out.append(["try", body, hs])
+        elif k == "wait":
             out.append(["wait"])
         elif k == "log":
             out.append(["log", g.lab()])
@@ -320,6 +336,8 @@ def gen_nested(rng):
             "termSimWhen": [rng.choice(cnames)] if rng.random() < 0.2 else [],
             "termAfter": [rng.randint(0, 3), rng.choice(["steps", "seconds"])] if rng.random() < 0.35 else [],
             "records": records, "monitors": mymons, "hascompose": hascompose, "compose": compose,
+            # objects created by the setup block of a sub-scenario (with a behaviour of the program, or none)
+            "objs": [rng.choice([0] + list(range(1, nmain + 1))) for _ in range(rng.choice([0, 0, 1, 2]))] if not istop else [],
         }
         if not istop and not hascompose and not sd["termWhen"] and not sd["termAfter"]:
             sd["termAfter"] = [rng.randint(1, 3), "steps"]
@@ -345,6 +363,8 @@ def _has_yield_compose(stmts):
         if s[0] == "if" and (_has_yield_compose(s[2]) or _has_yield_compose(s[3])):
             return True
         if s[0] == "while" and _has_yield_compose(s[2]):
+            return True
+        if s[0] == "try" and _has_yield_compose(s[1]):
             return True
     return False
 
